@@ -325,6 +325,17 @@ def decay_block(rep, ctx, stream, kinds=("decay",), ndatasets=None, per=6, hp=Fa
             view = DatasetView(ds)
             C, Ci, rate = exact_matrices(sch)
             K = condition_bounds(C, Ci)
+            # the forward-error bound the theorem Generic.forward_error gives for THIS dataset: the driver finds the smallest
+            # tolerances (aggregated data error, condition sum, rounding coefficient) that pass errorCheckedB and evaluates
+            # errorBoundQ; used as the float tolerance when the check passes (else the harness's own 2^-45 K_i allowance)
+            thm_bound = None
+            if ctx.build_ok and not hp:
+                eo = lean_driver(prelude + [f"ds_err\t{name}\t1/1000000000000000"])[-1].split(" ")
+                if eo[0] == "ok" and eo[1] == "true":
+                    thm_bound = Fraction(eo[5])
+                    rep.dist("synthetic:theorem-bound-used")
+                else:
+                    rep.dist("synthetic:theorem-bound-unavailable")
             radio = [i for i in range(view.n) if view.rate[i] != 0]
             cases, reals = [], []
             for _ in range(per):
@@ -406,7 +417,8 @@ def decay_block(rep, ctx, stream, kinds=("decay",), ndatasets=None, per=6, hp=Fa
                         okv = abs(F(v)) < Fraction(1, 10**270) * max(anc_tot, 1) if mag < Fraction(1, 10**280) * max(anc_tot, 1) \
                             else within(F(v), lo, hi, mag / 10**13)
                     else:
-                        okv = within(F(v), lo, hi, K[i] * anc_tot / 2**45)
+                        okv = within(F(v), lo, hi, (thm_bound * anc_tot) if (thm_bound is not None and kind == "decay")
+                                     else K[i] * anc_tot / 2**45)
                     if not okv:
                         bad += 1
                         rep.violation("failing-input", f"{desc}: {nm} = {v!r}, exact value in [{float(lo)!r}, {float(hi)!r}]",
